@@ -5,7 +5,7 @@
      ring <bytes> | filtring <bytes>       capacity substituted for the 1 GiB rings (before init)
      seed <n> | sched t0 t1 ..             schedule (random from seed / explicit thread ids)
      cam <idx> w=<w> h=<h> type=<t> trig=<0|1> pace=<n>     mock camera behaviour
-     camfail <idx> <hardware id> | camempty <idx> <k> (every k-th frame call returns no frame) | camstartfail <idx> | stofail <idx> <append index> | stostartfail <idx> | stopace <idx> <n>
+     camfail <idx> <hardware id> | camempty <idx> <k> (every k-th frame call returns no frame) | camstartfail <idx> | stofail <idx> <append index> | stostartfail <idx> | stopace <idx> <n> | waitidle (poll acquire_get_state until it is not Running)
      cfg <stream> cam=<A|B|Bad|none> sto=<A|B|Bad|none> n=<max frames> avg=<k> delay=<ms>
      init | configure | start | stop | abort | trigger <stream> | map <stream> | unmap <stream> all|none|half|frames <k>|bytes <n>
      state | yield <n> | shutdown
@@ -496,6 +496,11 @@ int main(void)
                 if (++guard > 20000) { printf("A drain GIVEUP\n"); break; }
                 clock_sleep_ms(0, 1.0f); /* a polling client sleeps between polls (and so does not starve the workers under priority scheduling) */
             }
+        } else if (!strncmp(l, "waitidle", 8)) {
+            /* a client that does not call stop but polls the state until the runtime no longer reports Running (bounded) */
+            enum DeviceState st = acquire_get_state(rt);
+            for (int i = 0; i < 4000 && st == DeviceState_Running; ++i) { clock_sleep_ms(0, 1.0f); st = acquire_get_state(rt); }
+            printf("A state -> %s\n", state_name(st));
         } else if (!strncmp(l, "state", 5)) {
             printf("A state -> %s\n", state_name(acquire_get_state(rt)));
         } else if (sscanf(l, "yield %ld", &x) == 1) {
